@@ -70,12 +70,22 @@ def cconform(v, wd, name, c, schedules, invs=CINVS[:5], max_failures=3, page_siz
     stimuli = [json.loads(l) for l in open(stim)]
     cur = trace
     failures = 0
+    mode = "impl"          # "impl": TraceCloud; "obs": ObsCloud (after a specification drift)
+    oinvs = [i for i in invs if i != "TypeOK"]
+    ocfg = write_cfg(os.path.join(wd, name + ".obs.cfg"), {"Clients": c["Clients"], "MaxVer": 60},
+                     spec="OSpec", invariants=oinvs, postcondition="Accepted")
     while True:
-        r = tlc_trace(wd, name + ".tv", "TraceCloud.tla", tcfg, cur)
+        if mode == "impl":
+            r = tlc_trace(wd, name + ".tv", "TraceCloud.tla", tcfg, cur)
+        else:
+            r = tlc_trace(wd, name + ".obs", "ObsCloud.tla", ocfg, cur)
         nev = sum(1 for _ in open(cur))
         if r["accepted"]:
             v.traces += len(split_behaviours(cur))
             v.events += nev
+            if mode == "obs":
+                v.extra["validated_at_property_level_only"] = \
+                    v.extra.get("validated_at_property_level_only", 0) + len(split_behaviours(cur))
             break
         if r["timed_out"] or (r["rejected_at"] is None and not r["violated"]):
             v.tool_errors.append(f"{name}: trace validation did not finish: {r.get('error')} "
@@ -84,10 +94,13 @@ def cconform(v, wd, name, c, schedules, invs=CINVS[:5], max_failures=3, page_siz
         line = r["rejected_at"] if r["rejected_at"] else r.get("violated_at_line", 1)
         k, lines, off = behaviour_at(cur, line)
         bid = json.loads(lines[0]).get("id") if lines else None
+        level = "implementation-level" if mode == "impl" else "property-level"
         what = (f"invariant {r['violated']} violated while following the recorded execution"
                 if r["violated"] else
-                f"recorded step is not a step of the specification: {json.dumps(r['event'])[:300]}")
+                f"recorded step is not a step of the {level} specification: "
+                f"{json.dumps(r['event'])[:300]}")
         payload = {"kind": "trace-rejection", "check": name, "behaviour": bid, "driver": "cloud-replay",
+                   "level": level,
                    "stimulus": stimuli[bid] if bid is not None and bid < len(stimuli) else None,
                    "rejected_event_index": off, "rejected_event": r["event"],
                    "invariant": r["violated"], "trace": [json.loads(x) for x in lines],
@@ -95,16 +108,12 @@ def cconform(v, wd, name, c, schedules, invs=CINVS[:5], max_failures=3, page_siz
                    "constants": {k2: sorted(v2) if isinstance(v2, (set, frozenset)) else v2
                                  for k2, v2 in tc.items()}}
         drift = False
-        if not r["violated"]:
+        if mode == "impl" and not r["violated"]:
             # property level (DESIGN.md 4.5): judge the recorded store and return values only
             one = os.path.join(wd, f"{name}.b{bid}.ndjson")
             with open(one, "w") as f:
                 f.writelines(lines)
-            ocfg = write_cfg(os.path.join(wd, name + ".obs.cfg"),
-                             {"Clients": c["Clients"], "MaxVer": 60}, spec="OSpec",
-                             invariants=[i for i in invs if i != "TypeOK"] ,
-                             postcondition="Accepted")
-            ro = tlc_trace(wd, name + ".obs", "ObsCloud.tla", ocfg, one)
+            ro = tlc_trace(wd, name + ".obs1", "ObsCloud.tla", ocfg, one)
             drift = ro["accepted"]
             payload["property_level"] = {"accepted": ro["accepted"], "rejected_event": ro["event"],
                                          "invariant": ro["violated"]}
@@ -114,11 +123,13 @@ def cconform(v, wd, name, c, schedules, invs=CINVS[:5], max_failures=3, page_siz
         if drift:
             v.drift.append(f"{name} behaviour {bid}: {json.dumps(r['event'])[:200]} is not the request "
                            f"CloudStore issues next, but the behaviour satisfies the property-level "
-                           f"specification ObsCloud")
+                           f"specification ObsCloud; all behaviours of this family are now judged at "
+                           f"the property level")
             write_replay(v.pid, f"{name}-b{bid}-drift", payload)
-        else:
-            p = write_replay(v.pid, f"{name}-b{bid}", payload)
-            v.violations.append((what, p))
+            mode = "obs"
+            continue
+        p = write_replay(v.pid, f"{name}-b{bid}", payload)
+        v.violations.append((what, p))
         failures += 1
         bs = split_behaviours(cur)
         nxt = os.path.join(wd, f"{name}.trace.{failures}.ndjson")
